@@ -1,0 +1,3 @@
+//! bgp-tcp-in unit metrics hooks (area BgpMetrics): see
+//! `units::bgp_tcp_in::unit::verif_hooks_bgpmetrics`.
+pub use crate::units::bgp_tcp_in::unit::verif_hooks_bgpmetrics::*;
